@@ -46,7 +46,7 @@ Definition uts_sel1 (t : string) (staged0 : option stg) (entry0 : option nat) : 
 
 Definition uts_sel2 (t : string) (evt : event) (staged0 : option stg) (r1 : trec) (idx1 : nat) : M nat :=
   if ostatus_in (r_status r1) COMPLETED_STATUSES && status_in (ev_status evt) STARTING_STATUSES
-     && match staged0 with Some _ => true | None => false end
+     && match staged0 with Some s0 => negb (s_completed s0) | None => false end
   then s <- uts_need_staged staged0 ;; add_task_state ev t (s_route s) (s_in s) (s_prev s)
   else ret idx1.
 
@@ -910,6 +910,7 @@ Proof.
   destruct (ostatus_in (r_status r1) COMPLETED_STATUSES) eqn:Eo; cbn [andb] in H.
   - destruct (status_in (ev_status evt) STARTING_STATUSES); cbn [andb] in H.
     + destruct s0 as [s|]; [|left; inversion H; subst; split; reflexivity].
+      destruct (negb (s_completed s)); [|left; inversion H; subst; split; reflexivity].
       right; split; [reflexivity|]. apply bind_val_inv' in H. destruct H as [c1 [s' [E1 H]]].
       inversion E1; subst. exists s'; split; [reflexivity|exact H].
     + left; inversion H; subst; split; reflexivity.
